@@ -12,6 +12,8 @@ invariants of the property are evaluated in EVERY reached state:
     values to rounding;
   * a horizontally and vertically uniform tracer stays uniform to rounding;
   * sim_time == t0 + (#steps)*dt to rounding; filters and the implicit solve return sim_time bit-identical.
+
+Extensions after the seeded-breakage rounds (DESIGN.md 8.5): The orography has content at the top total wavenumber, the roots include one state per field with energy at the highest retained wavenumber l = L-2, the action alphabet contains exponential filters with non-default order / cutoff, and the clock is also followed through the centred and off-centred semi-implicit leapfrog.
 """
 import itertools
 import hashlib
